@@ -345,7 +345,7 @@ impl Context {
 	fn deserialize_variables_internal(&mut self, read: &mut impl io::Read) -> FResult<()> {
 		let len = usize::deserialize(read)?;
 		self.variables.clear();
-		self.variables.reserve(len);
+		self.variables.reserve(serialize::prealloc(len));
 		for _ in 0..len {
 			let s = String::deserialize(read)?;
 			let v = value::Value::deserialize(read)?;
